@@ -141,6 +141,23 @@ pub fn run(ctx: &mut Ctx) {
     let max = ctx.pick(80, 400);
     let cases = ctx.cases(6000, 20);
     ctx.forall("pairs", cases, strat(max), check);
+    {
+        let m = ID.model();
+        let th = ctx.thorough();
+        let cases = ctx.cases(8, 8);
+        let st = gen::seq_spec_long(ID, th)
+            .prop_flat_map(move |a| {
+                let n = a.len();
+                let ca = a.codes.clone();
+                let b = prop_oneof![
+                    1 => gen::codes_n(m, n),
+                    1 => vec(0..16u8, n).prop_map(move |mask| ca.iter().zip(mask).map(|(x, k)| x & k).collect::<Vec<u8>>()),
+                ];
+                (Just(a), b, gen::repr(m), gen::seq_spec(ID, 40))
+            })
+            .prop_map(|(a, b, rb, c)| Case { a, b: SeqSpec { codes: b, repr: rb }, c });
+        ctx.forall("pairs_long", cases, st, check);
+    }
     let cases = ctx.cases(1500, 10);
     ctx.forall("from_dna", cases, gen::seq_spec(CodecId::Dna, 150), check_from_dna);
     // exhaustive: all 256 symbol pairs x all 256 pairs of start offsets (length-1 windows)
